@@ -55,6 +55,21 @@ CHECKS = {
     "C07": (True, "explicit-state breadth-first search over the live Circuit object (all operation sequences up to a depth over a finite alphabet), invariant in every state, transition checks on every call",
             "181-operation alphabet (add with every type / fan-in / fan-out shape incl. missing, duplicate, self-referential names, uid=True; connect / disconnect on all pairs and lists; remove; set_output; add_blackbox with legal, illegal and unknown-pin connections; add_subcircuit with two children; fill_blackbox with matching / non-matching children) from 5 seed circuits, depth 3 (thorough 4): wiring invariant + blackbox-pin invariant in every state; every raising call adds no edge and raises ValueError; uid=True never touches an existing node.",
             TRUST + " State counts are summed over first-operation partitions.", "4/C07"),
+    "C02": (True, "bounded exhaustive enumeration of programs generated from a reference grammar (all syntax trees up to an operator bound, all item permutations, all layouts with <=d deviations) parsed by the implementation, vs the AST's denotation",
+            "ALL concrete syntax trees with <=2 (thorough 3) operator tokens over ~ ! & | ^ ~^ ^~ ?: ( ) and constants (77k programs, 48 assigns per module, failing modules re-run one assign at a time); primitive instances of 8 types at fan-in 1..4 incl. repeated operands, several per statement; 16 modules in ALL item permutations (use before definition, repeated sub-expressions, assignment lists, blackboxes); blackbox pins connected / .p() / omitted / constant; port-list vs declaration cross-check (all combinations for 2 names); every gap of two programs with <=1 (2) layout deviations incl. comments; module selection; nets named like the parser's synthetic names (known finding, listed programs).",
+            TRUST + " The reference grammar encodes Verilog precedence ~ ! > & > ^ ~^ ^~ > | > ?: and is part of the trusted base.", "4/C02"),
+    "C06": (True, "exhaustive enumeration of operation histories (add_subcircuit / add_blackbox / fill_blackbox / strip_blackboxes) on the live object up to a depth, every state compared with a hierarchical reference model",
+            "Depth-1/2 histories over every child of (1,2),(2,2 arity 2) + special children x every connection map (inputs from {a,b,g,unattached}, outputs to sockets) x both routes (splice, blackbox then fill); two-instance histories (second may attach to nodes of the first, all interleavings of add_blackbox/fill) over 6 children incl. nested blackbox, feed-through and constant children, depth 3 (4); after every call: parent io, registry, pins, and every node's function vs a hierarchy-tree evaluation that never flattens; strip_blackboxes with and without ignore_pins on every state holding a blackbox.",
+            TRUST, "4/C06"),
+    "C14": (True, "bounded exhaustive enumeration of restricted-subset programs (circuit space x styles x statement orders, all permutations of a family, all layouts with <=d white-space deviations) through both parsers, differential + denotational oracle",
+            "Netlists from (2,1),(1,2 arity 4),(2,2 arity 2) + constants in writer and synthesis style, forward/reversed/rotated statement order; 6 modules in ALL statement permutations; blackbox pins connected / .p() / omitted / constant for two blackbox types; every gap (except ')' ';') of two programs with <=1 (2) white-space deviations; 19 bundled netlists that satisfy the restrictions (comment-stripped): same io, instances, pin connections, identical graphs up to the constant-node names, and the fast result denotes the AST.",
+            TRUST, "4/C14"),
+    "C15": (True, "bounded exhaustive enumeration of bench texts generated from a bench AST (all spellings, all line orders up to 5 lines, white-space variants) and of circuits for the round trip, on the implementation, vs the AST's denotation",
+            "Texts from the (2,2) circuit space in 2-4 spellings x ALL line orders (<=5 lines; 4 orders beyond), a fixed family with repeated operands, fan-in 4, DFF chains in every line order x 4 white-space styles; each net's function, declared io and each DFF blackbox (D driven by, Q drives); round trip of all circuits (2,2),(3,1),(1,2) + constants feeding gates / as outputs + outputs that are inputs under 3 hash seeds.",
+            TRUST, "4/C15"),
+    "C19": (True, "exhaustive enumeration of (public function variant x corpus circuit) with a fixed edit history applied to result and to argument, on the implementation, deep-snapshot oracle",
+            "68 function variants (all of tx except syn/aig, props, sat incl. approx_model_count on the stand-in, writers, to_file, lint, every read-only Circuit method, add_subcircuit/fill_blackbox's circuit argument) x 212 corpus circuits (enumerated + flops with two outputs, constants, cycles, escaped names): argument snapshot (all node attribute dicts, edges, name, registry incl. BlackBox identity and pin sets) identical after the call, also when it raises; 12 edits applied to every returned Circuit must not change the argument and vice versa.",
+            TRUST + SAT_TRUST, "4/C19"),
 }
 
 NOT_YET = "check not built yet in this session (planned in DESIGN.md section 4); not claimed until its machinery exists"
